@@ -375,7 +375,10 @@ def run(ctx):
         t0 = time.time()
         recs = pool.map(execute, jobs, chunksize=4)
         nwall = wall_clock(ctx, pool)
-    ctx.note('%d timed executions of %d entry points on %d transports in %.0fs' % (len(recs), len(ENTRIES), len(TRANSPORTS), time.time() - t0))
+    nurg = sum(1 for j in jobs if j[2] == 'tcpfd')
+    ctx.note('%d timed executions of %d entry points on %d transports (fd: pipe / FIFO / pty / socketpair / TCP descriptor x select / poll) in %.0fs; '
+             '%d of them on a TCP descriptor whose peer sends urgent data at some tick (the wait is woken without data; select flavour)' % (
+                 len(recs), len(ENTRIES), len(TRANSPORTS), time.time() - t0, nurg))
     ctx.note('%d wall-clock runs (pty and pipe, select and poll, T in {0.4, 0.8, 1.5} s with a silent peer, a match arriving 0.3 s into a 0.9 s wait; '
              'the same with SIGALRM handled by the parent every 50 ms while it waits; a TCP descriptor with urgent data pending, select): '
              'TIMEOUT not before T, not later than T + 1.5 s' % nwall)
